@@ -142,6 +142,15 @@ func accumulator(c *mon.Ctx, cfg hcfg, N int, rng *gen.Rng) {
 						c.Fail(L+"/SetIndex/accepted-on-non-empty-tree", "n=%d i=%d: SetIndex(%d) after %d pushes returned nil", n, i, other, k+1)
 					}
 				}
+				// a proof asked for while the tree is still growing (once the proven leaf is in): it is the proof for the
+				// leaves pushed so far, and asking leaves the tree as it was
+				if k == (n+i)/2 && k >= i && k < n-1 && (n+i)%3 == 1 {
+					rk, psk, ik, nk := t.Prove()
+					wantk := append([][]byte{m.leaves[i]}, m.path(i, 0, k+1)...)
+					c.Check("Prove", L+"/Prove/intermediate-mismatch", bytes.Equal(rk, m.mth(0, k+1)) && eqSets(psk, wantk) && ik == uint64(i) && nk == uint64(k+1), func() string {
+						return fmt.Sprintf("n=%d i=%d: Prove() after %d pushes: root=%x proofLen=%d want %d", n, i, k+1, rk, len(psk), len(wantk))
+					})
+				}
 				if (i+k)%5 == 0 {
 					r := t.Root()
 					c.Check("Root", L+"/Root/intermediate-mismatch", bytes.Equal(r, m.mth(0, k+1)), func() string {
